@@ -24,7 +24,7 @@ INVALID = [wire.m(), "F", "C", "H:stdin", "E:io"]
 def nontrivial(c):
     if c.line.startswith("eqhash"):
         return c.impl.startswith("eq=t")
-    return "ok i:" in c.impl or "ok t" in c.impl
+    return "ok " in c.impl
 
 
 def classify(c):
@@ -45,8 +45,16 @@ def cases(ctx):
     for x, y in itertools.product(KEYS, KEYS):
         out.append(Case(f"hmap m{{}} I{x}=i:7;G{y};C{y};X{y};I{y}=i:8;G{x};L;S{y}=i:9;X{x};L", ("pair-hmap",)))
         out.append(Case(f"hmap m{{{x}=i:7}} X{y};C{y};S{y}=i:3;G{x};L", ("pair-literal",)))
+    # overwriting with a value that is == to the stored one but distinguishable from it: the latest insert must win
+    eqv = [wire.i(1), wire.d(1.0), wire.b(1), wire.i(0), wire.d(0.0), wire.d(-0.0), wire.a(wire.i(1)), wire.a(wire.d(1.0)), wire.a(wire.d(0.0)), wire.a(wire.d(-0.0)),
+           wire.s("a"), wire.c("a"), wire.TRUE, wire.NULL]
+    for k in (wire.i(1), wire.d(1.0), wire.s("k"), wire.a(wire.i(0))):
+        for v1, v2 in itertools.product(eqv, eqv):
+            out.append(Case(f"hmap m{{}} I{k}={v1};I{k}={v2};G{k};X{k};S{k}={v1};G{k};X{k};D", ("overwrite-equal-value",)))
+            out.append(Case(f"hmap m{{{k}={v1}}} S{k}={v2};X{k};I{k}={v1};G{k};D", ("overwrite-equal-value",)))
     # random sequences
     dom = [k for k in KEYS if k not in (wire.i((1 << 53) + 1),)]
+    val = lambda: wire.i(rng.randint(0, 99)) if rng.random() < 0.6 else rng.choice(eqv)
     for _ in range(ctx.scale(2500, 150000)):
         ks = [rng.choice(dom) for _ in range(rng.randint(2, 6))]
         steps = []
@@ -54,9 +62,9 @@ def cases(ctx):
             k = rng.choice(ks)
             t = rng.random()
             if t < 0.35:
-                steps.append(f"I{k}={wire.i(rng.randint(0, 99))}")
+                steps.append(f"I{k}={val()}")
             elif t < 0.5:
-                steps.append(f"S{k}={wire.i(rng.randint(0, 99))}")
+                steps.append(f"S{k}={val()}")
             elif t < 0.65:
                 steps.append(f"G{k}")
             elif t < 0.8:
